@@ -7,6 +7,8 @@ from .. import paths
 from ..core import FUNC, call_attr, calls_in, const, dotted, is_const, kwarg, norm, slice_parts, text, walk_local
 
 EXPLANATION = [
+    'C14.public-key-siblings: EccKey.y of the pure-Python back end is computed exactly like EccKey.x (the other coordinate of the same generate_public_key result), not recovered through a square root.',
+    'C14.jacobian-double: in the pure-Python back end _JacobianPoint.double returns the point at infinity exactly under `self.z == 0 or self.y == 0`: x does not take part in the degenerate test.',
     'C14.dh-validates: in both back ends every return of EccKey.dh follows the validated ECDH computation on the coordinates it was given (path rule), and dh stores nothing on the key object (no result cache that could answer before validation).',
     'C14.jacobian-add: in _JacobianPoint.__add__ every assignment of U1, U2, S1, S2 is the polynomial X1*Z2^2, X2*Z1^2, Y1*Z2^3, Y2*Z1^3 (compared as polynomials, modulo p); an unscaled shortcut is accepted only under the guard that the other operand has Z = 1.',
     'C14.scalar-range: any guard the built-in back end puts on a private scalar (from_private_key_bytes) accepts the whole range [1, n-1] (range(a, b) needs a <= 1 and b >= n; comparisons with n must not refuse n - 1), so both back ends derive a key for every valid scalar.',
@@ -581,7 +583,47 @@ def dh_validates(ctx):
     R.check(n == 2, rule, 'EccKey.dh | both back ends', f'{n} implementations', f'{n} implementations found')
 
 
+def jacobian_double(ctx):
+    """Doubling yields the point at infinity exactly for the point at infinity (z == 0) and for points of order two (y == 0).
+    x == 0 is an ordinary coordinate: P-256 has two valid points with x = 0, which the library back end accepts as keys."""
+    R, p = ctx.r, ctx.p
+    rule = 'C14.jacobian-double'
+    fn = p.find('bumble.crypto.builtin._JacobianPoint.double')
+    if fn is None:
+        R.bad(rule, 'bumble.crypto.builtin._JacobianPoint.double', 'anchor missing')
+        return
+    inf = [n for n in walk_local(fn) if isinstance(n, ast.If) and any(isinstance(x, ast.Return) and 'point_at_infinity' in norm(x) for x in n.body)]
+    R.check(len(inf) == 1, rule, 'bumble.crypto.builtin._JacobianPoint.double | degenerate case', 'one test leads to the point at infinity', f'{len(inf)} tests', p.loc(fn))
+    for n in inf:
+        coords = sorted({x.attr for x in ast.walk(n.test) if isinstance(x, ast.Attribute) and dotted(x.value) == 'self'})
+        atoms = n.test.values if isinstance(n.test, ast.BoolOp) and isinstance(n.test.op, ast.Or) else [n.test]
+        ok = coords == ['y', 'z'] and sorted(norm(a) for a in atoms) == ['self.y == 0', 'self.z == 0']
+        R.check(ok, rule, 'bumble.crypto.builtin._JacobianPoint.double | infinity iff z == 0 or y == 0', 'only y and z decide', f'the degenerate test is `{norm(n.test)}` (coordinates {coords}): a valid point with x = 0 doubles to infinity, so ECDH with such a peer key gives an all-zero secret or fails while the library back end computes the key', p.loc(n))
+
+
+def public_key_siblings(ctx):
+    """EccKey.x and EccKey.y are the two coordinates of one point, d*G: both come out of the same computation (the curve's
+    generate_public_key on the private scalar).  Recovering y from x through the curve equation picks one of two square
+    roots -- for half of all scalars the wrong one."""
+    R, p = ctx.r, ctx.p
+    rule = 'C14.public-key-siblings'
+    ci = p.cls('bumble.crypto.builtin.EccKey')
+    if ci is None:
+        R.bad(rule, 'bumble.crypto.builtin.EccKey', 'anchor missing')
+        return
+    fx, fy = ci.methods.get('x'), ci.methods.get('y')
+    if fx is None or fy is None:
+        R.bad(rule, 'bumble.crypto.builtin.EccKey.x / y', 'anchor missing')
+        return
+    bx = [norm(s_) for s_ in fx.body if not (isinstance(s_, ast.Expr) and is_const(s_.value))]
+    by = [norm(s_) for s_ in fy.body if not (isinstance(s_, ast.Expr) and is_const(s_.value))]
+    same = [b.replace(').x.', ').@.').replace('.x.to_bytes', '.@.to_bytes') for b in bx] == [b.replace(').y.', ').@.').replace('.y.to_bytes', '.@.to_bytes') for b in by]
+    R.check(same and any('generate_public_key' in b for b in by) and not any('pow(' in b for b in by), rule, 'bumble.crypto.builtin.EccKey.y', 'the y coordinate of the same generate_public_key result x comes from', 'EccKey.y is not computed like EccKey.x (the other coordinate of the same scalar multiplication): a y recovered from the curve equation is one of two square roots, so for about half of all private keys the public key is -d*G and differs from the library back end and from the specification samples', p.loc(fy))
+
+
 RULES = [
+    ('C14.public-key-siblings', public_key_siblings),
+    ('C14.jacobian-double', jacobian_double),
     ('C14.dh-validates', dh_validates),
     ('C14.jacobian-add', jacobian_add),
     ('C14.scalar-range', scalar_range),
